@@ -199,6 +199,10 @@ def _wrap(f, key=None):
     discards = key in (pickle.POP[0], pickle.POP_MARK[0])      # they only uncover what was already there
 
     def g(self):
+        if key == pickle.FROZENSET[0] and "frozenset" in self.binding:
+            # the one builtin the decompiler spells by its bare name on its own (`frozenset({...})` for this opcode): once an
+            # import has bound that name to a global of another module, the printed name no longer denotes the builtin
+            self.stale = True
         try:
             f(self)
         except pickle._Stop:
